@@ -136,6 +136,13 @@ pub const TEMPLATES: &[&str] = &[
     "type T = U\n( g ) ( )",
     "local s = a\n; ( g ) ( )",
     "local s = f ( )\n; ( g ) ( )",
+    // a semicolon after the last statement of a block
+    "return 1 ;",
+    "return ;",
+    "while true do break ; end",
+    "for i = 1 , 2 do continue ; end",
+    "do return a , b ; end",
+    "local function f ( ) return ; end",
     // fewer values than variables
     "local a , b = ...",
     "const a , b = ...",
@@ -219,6 +226,8 @@ pub fn spelling_programs() -> Vec<String> {
         out.push(format!("return {} , - {} , t [ {} ] , {{ {} }} , f ( {} )", n, n, n, n, n));
         out.push(format!("for i = {} , {} do end", n, n));
         out.push(format!("local a = {} or b", n));
+        out.push(format!("return {} .. s , s .. {} , {} .. {}", n, n, n, n));
+        out.push(format!("return {} . x , {} : m ( )", n, n));
         out.push(format!("if a == {} then end", n));
         out.push(format!("while a < {} do end", n));
         out.push(format!("repeat until {} == a", n));
